@@ -180,6 +180,7 @@ impl Case for C{k} {{
     fn name(&self) -> &'static str {{ "S{k}" }}
     fn meta(&self) -> &'static str {{ r#"{meta}"# }}
     fn plen(&self) -> usize {{ <S{k} as ethercrab_wire::EtherCrabWireSized>::PACKED_LEN }}
+    fn blen(&self) -> usize {{ <S{k} as ethercrab_wire::EtherCrabWireSized>::buffer().as_ref().len() }}
     fn sample(&self, rng: &mut Rng, canon: bool) -> Sample {{
         let v = S{k} {{
 {chr(10).join(gen_fields)}
@@ -302,7 +303,9 @@ def run(pid, tier):
         with open(trace) as fh:
             for line in fh:
                 c = json.loads(line)
-                if c["op"] != "roundtrip":
+                if c["op"] in ("buffer", "array_unpack"):
+                    distinct.add((c["op"], c["id"], c.get("res")))
+                elif c["op"] != "roundtrip":
                     distinct.add((c["op"], json.dumps(c["L"], sort_keys=True), c.get("res")))
                     if len(samples) < 3 and len(c["L"]) >= 3:
                         samples.append(c)
